@@ -42,6 +42,7 @@ func main() {
 	in := flag.String("in", "", "input file")
 	out := flag.String("out", "", "output file")
 	spec := flag.String("spec", "[]", "json rules")
+	appendText := flag.String("append", "", "declarations appended to the file")
 	flag.Parse()
 	var rules []rule
 	if err := json.Unmarshal([]byte(*spec), &rules); err != nil {
@@ -160,6 +161,9 @@ func main() {
 	if err := format.Node(&buf, fset, f); err != nil {
 		fmt.Printf("{\"error\":%q}\n", err.Error())
 		os.Exit(2)
+	}
+	if *appendText != "" {
+		buf.WriteString("\n" + *appendText + "\n")
 	}
 	if err := os.WriteFile(*out, buf.Bytes(), 0o644); err != nil {
 		fmt.Printf("{\"error\":%q}\n", err.Error())
